@@ -1246,7 +1246,11 @@ impl Engine for BldEngine {
             for sp1 in &sub1 {
                 let thirds: Vec<Option<&StateSpec>> = if ns == 3 { sub2.iter().map(|s| Some(*s)).collect() } else { vec![None] };
                 for sp2 in thirds {
-                    for fmode in 0..3 {
+                    for fmode in 0..4 {
+                        // mode 3 (a state marked final twice, before and after its transitions): for a share of the specifications
+                        if fmode == 3 && i0 % 3 != 0 {
+                            continue;
+                        }
                         let mut calls = vec![];
                         // final marks first in one mode: they mention states before their transitions
                         if fmode == 2 {
@@ -1254,12 +1258,16 @@ impl Engine for BldEngine {
                                 calls.push(Call::Final(q));
                             }
                         }
+                        if fmode == 3 {
+                            calls.push(Call::Final(ns - 1));
+                            calls.push(Call::Final(0));
+                        }
                         emit(0, sp0, &mut calls);
                         emit(1, sp1, &mut calls);
                         if let Some(s) = sp2 {
                             emit(2, s, &mut calls);
                         }
-                        if fmode == 1 {
+                        if fmode == 1 || fmode == 3 {
                             calls.push(Call::Final(ns - 1));
                         }
                         rep.inc("evaluations");
